@@ -240,7 +240,8 @@ def run_check(prop, tier):
     known = load_known()
     known_hit = []
     new = []
-    os.makedirs(os.path.join(VERIF, 'replays'), exist_ok=True)
+    outdir = os.environ.get('VERIF_OUT', VERIF)     # mutant runs write their evidence/replays elsewhere
+    os.makedirs(os.path.join(outdir, 'replays'), exist_ok=True)
     for sig in sorted(total.violations):
         rec = total.violations[sig]
         # replay twice without the explorer; must reproduce the same signature, identically
@@ -267,7 +268,7 @@ def run_check(prop, tier):
               % (prop, k['what_fails'], sig, rec['count']))
     for sig, rec, r1 in new:
         name = '%s-%s.json' % (prop, ''.join(c if c.isalnum() or c in '-_.' else '_' for c in sig)[:100])
-        path = os.path.join(VERIF, 'replays', name)
+        path = os.path.join(outdir, 'replays', name)
         with open(path, 'w') as f:
             json.dump(jsonable(dict(property=prop, signature=sig, what=rec['what'],
                                     count=rec['count'], cost=rec['cost'],
@@ -305,8 +306,8 @@ def run_check(prop, tier):
               assumptions=meta.get('assumptions', []), wall_s=round(wall, 2),
               violations=len(new), engine=meta.get('engine', ''),
               repo=os.environ.get('VERIF_REPO', '/repo'))
-    os.makedirs(os.path.join(VERIF, 'evidence'), exist_ok=True)
-    with open(os.path.join(VERIF, 'evidence', prop + '.json'), 'w') as f:
+    os.makedirs(os.path.join(outdir, 'evidence'), exist_ok=True)
+    with open(os.path.join(outdir, 'evidence', prop + '.json'), 'w') as f:
         json.dump(ev, f, indent=1, sort_keys=True)
     print("%s %s: executions=%d states=%d transitions=%d outcomes=%d nontrivial=%d "
           "known=%d new=%d wall=%.1fs%s"
